@@ -180,6 +180,14 @@ pub fn class_seed(name: &str) -> Result<ClassSeed, String> {
 			return Err("assembler and reference parser disagree on the seed".into());
 		}
 		bytes
+	} else if name == "cldc" || name.starts_with("utf") {
+		let (model, enc) = if name == "cldc" { cldc_seed() } else { (utf_seed(name[3..].parse().map_err(|_| "bad seed")?)?, Default::default()) };
+		let bytes = cfmodel::asm::assemble(&model, &enc).map_err(|e| format!("assembler: {e:?}"))?;
+		let back = cfmodel::parse(&bytes).map_err(|e| format!("reference parser rejects the seed: {e}"))?;
+		if back.class != model {
+			return Err("assembler and reference parser disagree on the seed".into());
+		}
+		bytes
 	} else if let Some(rel) = name.strip_prefix("corpus:") {
 		std::fs::read(vcore::verif_root().join("corpus").join("classes").join(rel)).map_err(|e| format!("corpus class {rel}: {e}"))?
 	} else {
@@ -187,6 +195,52 @@ pub fn class_seed(name: &str) -> Result<ClassSeed, String> {
 	};
 	let parsed = cfmodel::parse(&bytes).map_err(|e| format!("reference parser rejects seed {name}: {e}"))?;
 	Ok(ClassSeed { bytes, parsed })
+}
+
+/// A class of the old CLDC flavour: three full frames in a `StackMap` attribute (explicit offsets), the frame offsets being
+/// the targets of three jumps that name them out of order, an `Uninitialized` verification type among the locals.
+fn cldc_seed() -> (cfmodel::model::SClass, cfmodel::asm::Encoding) {
+	use cfmodel::gen::{class_with_method, js, normalize, RETURN};
+	use cfmodel::model::{op, Idx, SFrame, SInsn, SVType};
+	let frame_at = |k: usize| SFrame::Full {
+		locals: vec![SVType::Integer, SVType::Object(js("p/T")), SVType::Uninitialized(5), SVType::Long, SVType::Null][..2 + k].to_vec(),
+		stack: vec![SVType::Object(js("[Lp/T;")), SVType::Double, SVType::UninitializedThis, SVType::Float, SVType::Top][..k + 1].to_vec(),
+	};
+	let targets: [Idx; 3] = [4, 6, 8];
+	let mut insns: Vec<SInsn> = [2usize, 0, 1].iter().map(|t| SInsn::Branch(op::IFEQ, targets[*t])).collect();
+	insns.extend([SInsn::Simple(op::NOP), SInsn::Simple(op::NOP), SInsn::New(js("p/T")), SInsn::Simple(op::NOP), SInsn::Simple(op::NOP), RETURN]);
+	let mut c = class_with_method("p/Cldc", insns);
+	c.version = (48, 0);
+	if let Some(code) = &mut c.methods[0].code {
+		code.frames = targets.iter().enumerate().map(|(k, t)| (*t, frame_at(k))).collect();
+	}
+	normalize(&mut c);
+	(c, cfmodel::asm::Encoding { frames_cldc: true, ..Default::default() })
+}
+
+/// A class with the `k`-th modified-UTF-8 boundary string (NUL, 2- and 3-byte characters, a surrogate pair, lone
+/// surrogates) in every role a Utf8 constant can have that takes free text, and non-ASCII member names.
+fn utf_seed(k: usize) -> Result<cfmodel::model::SClass, String> {
+	use cfmodel::gen::{js, method_with, normalize, skeleton, RETURN};
+	use cfmodel::model::{SAnnotation, SConst, SElementValue, SField, SInnerClass, SInsn, SLocalVar, SUnknown};
+	let s = cfmodel::gen::utf8_samples().into_iter().nth(k).ok_or("no such utf8 sample")?;
+	let mut c = skeleton("p/\u{c9}tf\u{20ac}");
+	c.source_file = Some(s.clone());
+	c.source_debug_extension = Some(s.clone());
+	c.signature = Some(s.clone());
+	c.unknown.push(SUnknown { name: js("x.\u{c9}mpty"), bytes: vec![1, 2, 3] });
+	c.annotations.visible = vec![SAnnotation { type_name: js("Lp/\u{c9};"), pairs: vec![(s.clone(), SElementValue::Str(s.clone())), (js("e"), SElementValue::Enum { type_name: js("Lp/\u{20ac};"), const_name: s.clone() })] }];
+	c.inner_classes = Some(vec![SInnerClass { inner: js("p/\u{c9}tf\u{20ac}$\u{ef}"), outer: Some(js("p/\u{c9}tf\u{20ac}")), name: Some(s.clone()), flags: 0 }]);
+	c.fields.push(SField { access: 0x0019, name: js("f\u{e9}"), desc: js("Ljava/lang/String;"), constant_value: Some(SConst::Str(s.clone())), ..Default::default() });
+	c.fields.push(SField { access: 0, name: js("\u{20ac}"), desc: js("[Lp/\u{c9};"), ..Default::default() });
+	c.methods.push(method_with("m\u{e9}", "(Lp/\u{c9};[Lp/\u{20ac};)V", vec![SInsn::Ldc(SConst::Str(s.clone())), SInsn::Ldc(SConst::Class(js("p/\u{c9}"))), RETURN]));
+	if let Some(code) = &mut c.methods[0].code {
+		code.local_var_types.push(SLocalVar { start: 0, end: 1, name: js("v\u{e9}"), ty: s.clone(), index: 0 });
+		code.local_vars.push(SLocalVar { start: 0, end: 2, name: js("\u{20ac}"), ty: js("Lp/\u{c9};"), index: 1 });
+	}
+	c.methods[0].parameters = Some(vec![(Some(js("p\u{e9}")), 0), (None, 0x10)]);
+	normalize(&mut c);
+	Ok(c)
 }
 
 enum Kind {
@@ -198,10 +252,25 @@ enum Kind {
 	Adversaries(Vec<adversaries::Adversary>),
 	InsnCut(Vec<(String, Vec<u8>)>),
 	Seeds(Vec<(String, P, Vec<u8>)>),
-	Lines { p: P, alphabet: Vec<Vec<u8>>, max_len: usize, with_header: bool },
+	Lines { p: P, alphabet: Vec<Vec<u8>>, min_len: usize, max_len: usize, with_header: bool },
 	Tokens { p: P, seed: Vec<u8>, cells: Vec<(usize, usize)>, repl: Vec<Vec<u8>> },
-	Desc { p: P, max_len: usize },
+	/// every string of min_len..=max_len characters over a character alphabet, in every cell of a text seed
+	Chars { p: P, seed: Vec<u8>, cells: Vec<(usize, usize)>, alphabet: Vec<Vec<u8>>, min_len: usize, max_len: usize },
+	/// every single edit of a text seed: at every byte position delete the byte, insert a symbol, replace the byte by a symbol
+	TextEdits { p: P, seed: Vec<u8>, symbols: Vec<Vec<u8>> },
+	/// every single byte of a class seed set to each of its byte fault values
+	ClassBytes { seed: Vec<u8>, faults: Vec<(u32, u8)> },
+	/// the contents of every Utf8 constant of a class seed replaced (length field adjusted) by every string of a list
+	Utf8 { seed: ClassSeed, entries: Vec<u32>, repl: Vec<Vec<u8>> },
+	Desc { p: P, alphabet: Vec<Vec<u8>>, max_len: usize },
 	File { p: P, input: Vec<u8> },
+}
+
+#[derive(Clone, Copy, Debug)]
+enum Edit {
+	Delete,
+	Insert(usize),
+	Replace(usize),
 }
 
 pub struct Space {
@@ -209,7 +278,34 @@ pub struct Space {
 	kind: Kind,
 }
 
-pub const DESC_ALPHABET: &[u8] = b"BDLa/;[()V.$";
+/// the descriptor alphabet: one primitive of each width, the object/array/method punctuation, a name character, the
+/// characters a class name must not contain, a two-byte character and a lone surrogate (JavaString is "semi" UTF-8)
+pub const DESC_ALPHABET: &[&[u8]] = &[b"B", b"D", b"L", b"a", b"/", b";", b"[", b"(", b")", b"V", b".", b"$", "\u{e9}".as_bytes(), &[0xed, 0xa0, 0x80]];
+/// every primitive letter (explored to a smaller length)
+pub const DESC_ALPHABET_LETTERS: &[&[u8]] = &[b"B", b"C", b"D", b"F", b"I", b"J", b"S", b"Z", b"V", b"L", b"a", b"/", b";", b"[", b"(", b")"];
+
+fn count_between(k: usize, min_len: usize, max_len: usize) -> u64 {
+	let all = vcore::enumerate::strings_count(k, max_len);
+	if min_len == 0 { all } else { all - vcore::enumerate::strings_count(k, min_len - 1) }
+}
+
+/// the `i`-th string of min_len..=max_len symbols (shortest first), symbols concatenated
+fn symbols_nth(alphabet: &[Vec<u8>], min_len: usize, max_len: usize, i: u64) -> Vec<u8> {
+	let skip = if min_len == 0 { 0 } else { vcore::enumerate::strings_count(alphabet.len(), min_len - 1) };
+	let idxs: Vec<usize> = vcore::enumerate::string_nth(&(0..alphabet.len()).collect::<Vec<_>>(), max_len, i + skip);
+	idxs.into_iter().flat_map(|k| alphabet[k].iter().copied()).collect()
+}
+
+/// the values a single byte is set to: {0, 0xff, b+1, b-1, b with the top bit flipped, b with the case bit flipped} minus b itself
+pub fn byte_values(b: u8) -> Vec<u8> {
+	let mut out = Vec::new();
+	for x in [0u8, 0xff, b.wrapping_add(1), b.wrapping_sub(1), b ^ 0x80, b ^ 0x20] {
+		if x != b && !out.contains(&x) {
+			out.push(x);
+		}
+	}
+	out
+}
 
 pub fn class_seed_names(thorough: bool) -> Vec<String> {
 	let mut v: Vec<String> = Vec::new();
@@ -327,7 +423,53 @@ impl Space {
 			"lines" => {
 				let (pn, mode) = rest.rsplit_once(':').ok_or("bad lines spec")?;
 				let p = P::from_name(pn).ok_or("bad parser")?;
-				Kind::Lines { p, alphabet: texts::line_alphabet(p), max_len: 3, with_header: mode == "header" }
+				Kind::Lines { p, alphabet: texts::line_alphabet(p), min_len: 0, max_len: 3, with_header: mode == "header" }
+			},
+			"linesx" => {
+				// linesx:<parser>:<mode>:<n> = every sequence of exactly n lines over the alphabet without the very long lines
+				let mut it = rest.rsplitn(3, ':');
+				let n: usize = it.next().and_then(|x| x.parse().ok()).ok_or("bad linesx spec")?;
+				let mode = it.next().ok_or("bad linesx spec")?;
+				let p = it.next().and_then(P::from_name).ok_or("bad parser")?;
+				Kind::Lines { p, alphabet: texts::short_line_alphabet(p), min_len: n, max_len: n, with_header: mode == "header" }
+			},
+			"chars" => {
+				// chars:<parser>:<seed>:<full|core>:<min>:<max>
+				let f: Vec<&str> = rest.rsplitn(5, ':').collect();
+				if f.len() != 5 {
+					return Err("bad chars spec".into());
+				}
+				let p = P::from_name(f[4]).ok_or("bad parser")?;
+				let seed = texts::seeds(p).into_iter().nth(f[3].parse().map_err(|_| "bad seed number")?).ok_or("no such seed")?;
+				let cells = texts::cells(p, &seed);
+				Kind::Chars { p, seed, cells, alphabet: texts::char_alphabet(f[2] == "core"), min_len: f[1].parse().map_err(|_| "bad length")?, max_len: f[0].parse().map_err(|_| "bad length")? }
+			},
+			"tedit" => {
+				let (pn, k) = rest.rsplit_once(':').ok_or("bad tedit spec")?;
+				let p = P::from_name(pn).ok_or("bad parser")?;
+				let seed = texts::seeds(p).into_iter().nth(k.parse().map_err(|_| "bad seed number")?).ok_or("no such seed")?;
+				Kind::TextEdits { p, seed, symbols: texts::edit_symbols() }
+			},
+			"bytes" => {
+				let seed = class_seed(rest)?.bytes;
+				let mut faults = Vec::new();
+				for (i, b) in seed.iter().enumerate() {
+					for v in byte_values(*b) {
+						faults.push((i as u32, v));
+					}
+				}
+				Kind::ClassBytes { seed, faults }
+			},
+			"utf8" | "utf8s" => {
+				let seed = class_seed(rest)?;
+				let entries: Vec<u32> = seed.parsed.map.iter().enumerate().filter(|(_, e)| e.role == Role::Utf8Length).map(|(i, _)| i as u32).collect();
+				let repl = if head == "utf8" {
+					adversaries::class_strings()
+				} else {
+					let alphabet = adversaries::class_char_alphabet();
+					(0..count_between(alphabet.len(), 0, 2)).map(|i| symbols_nth(&alphabet, 0, 2, i)).collect()
+				};
+				Kind::Utf8 { seed, entries, repl }
 			},
 			"tokens" => {
 				let (pn, k) = rest.rsplit_once(':').ok_or("bad tokens spec")?;
@@ -338,7 +480,11 @@ impl Space {
 			},
 			"desc" => {
 				let (pn, l) = rest.rsplit_once(':').ok_or("bad desc spec")?;
-				Kind::Desc { p: P::from_name(pn).ok_or("bad parser")?, max_len: l.parse().map_err(|_| "bad length")? }
+				Kind::Desc { p: P::from_name(pn).ok_or("bad parser")?, alphabet: DESC_ALPHABET.iter().map(|s| s.to_vec()).collect(), max_len: l.parse().map_err(|_| "bad length")? }
+			},
+			"descl" => {
+				let (pn, l) = rest.rsplit_once(':').ok_or("bad descl spec")?;
+				Kind::Desc { p: P::from_name(pn).ok_or("bad parser")?, alphabet: DESC_ALPHABET_LETTERS.iter().map(|s| s.to_vec()).collect(), max_len: l.parse().map_err(|_| "bad length")? }
 			},
 			"file" => {
 				let b = std::fs::read(Path::new(rest)).map_err(|e| format!("{rest}: {e}"))?;
@@ -358,9 +504,13 @@ impl Space {
 			Kind::Adversaries(v) => v.len() as u64,
 			Kind::InsnCut(v) => v.len() as u64,
 			Kind::Seeds(v) => v.len() as u64,
-			Kind::Lines { alphabet, max_len, .. } => vcore::enumerate::strings_count(alphabet.len(), *max_len),
+			Kind::Lines { alphabet, min_len, max_len, .. } => count_between(alphabet.len(), *min_len, *max_len),
 			Kind::Tokens { cells, repl, .. } => (cells.len() * repl.len()) as u64,
-			Kind::Desc { max_len, .. } => vcore::enumerate::strings_count(DESC_ALPHABET.len(), *max_len),
+			Kind::Chars { cells, alphabet, min_len, max_len, .. } => cells.len() as u64 * count_between(alphabet.len(), *min_len, *max_len),
+			Kind::TextEdits { seed, symbols, .. } => seed.len() as u64 * (1 + 2 * symbols.len() as u64) + symbols.len() as u64,
+			Kind::ClassBytes { faults, .. } => faults.len() as u64,
+			Kind::Utf8 { entries, repl, .. } => (entries.len() * repl.len()) as u64,
+			Kind::Desc { alphabet, max_len, .. } => vcore::enumerate::strings_count(alphabet.len(), *max_len),
 			Kind::File { .. } => 1,
 		}
 	}
@@ -376,6 +526,10 @@ impl Space {
 			Kind::Seeds(_) => "unmodified seeds",
 			Kind::Lines { .. } => "(e) line sequences",
 			Kind::Tokens { .. } => "(e) single-token replacements",
+			Kind::Chars { .. } => "(g) short character strings in every cell",
+			Kind::TextEdits { .. } => "(f) single byte/character edits at every position (text)",
+			Kind::ClassBytes { .. } => "(f) single byte edits at every position (class)",
+			Kind::Utf8 { .. } => "(g) Utf8 constant contents replaced",
 			Kind::Desc { .. } => "(e) descriptor strings",
 			Kind::File { .. } => "replay",
 		}
@@ -385,16 +539,20 @@ impl Space {
 		match &self.kind {
 			Kind::Pairs { capped_structures, structures, .. } => Some(vcore::json!({"structures": structures, "structures_over_candidate_cap": capped_structures})),
 			Kind::Fields { seed, .. } => Some(vcore::json!({"field_map_entries": seed.parsed.map.len(), "seed_bytes": seed.bytes.len()})),
+			Kind::Utf8 { entries, repl, .. } => Some(vcore::json!({"utf8_entries": entries.len(), "replacements": repl.len()})),
+			Kind::Chars { cells, alphabet, min_len, max_len, .. } => Some(vcore::json!({"cells": cells.len(), "characters": alphabet.len(), "min_len": min_len, "max_len": max_len})),
+			Kind::ClassBytes { seed, .. } => Some(vcore::json!({"byte_positions": seed.len()})),
+			Kind::TextEdits { seed, symbols, .. } => Some(vcore::json!({"edit_positions": seed.len(), "symbols": symbols.len()})),
 			_ => None,
 		}
 	}
 
 	pub fn parser(&self, i: u64) -> P {
 		match &self.kind {
-			Kind::Fields { .. } | Kind::Trunc { .. } | Kind::Pairs { .. } | Kind::InsnCut(_) => P::Class,
+			Kind::Fields { .. } | Kind::Trunc { .. } | Kind::Pairs { .. } | Kind::InsnCut(_) | Kind::ClassBytes { .. } | Kind::Utf8 { .. } => P::Class,
 			Kind::Adversaries(v) => v[i as usize].parser,
 			Kind::Seeds(v) => v[i as usize].1,
-			Kind::Lines { p, .. } | Kind::Tokens { p, .. } | Kind::Desc { p, .. } | Kind::File { p, .. } | Kind::TextTrunc { p, .. } => *p,
+			Kind::Lines { p, .. } | Kind::Tokens { p, .. } | Kind::Desc { p, .. } | Kind::File { p, .. } | Kind::TextTrunc { p, .. } | Kind::Chars { p, .. } | Kind::TextEdits { p, .. } => *p,
 		}
 	}
 
@@ -417,8 +575,8 @@ impl Space {
 			Kind::Adversaries(v) => (v[i as usize].build)(),
 			Kind::InsnCut(v) => v[i as usize].1.clone(),
 			Kind::Seeds(v) => v[i as usize].2.clone(),
-			Kind::Lines { alphabet, max_len, with_header, p } => {
-				let idxs: Vec<usize> = vcore::enumerate::string_nth(&(0..alphabet.len()).collect::<Vec<_>>(), *max_len, i);
+			Kind::Lines { alphabet, min_len, max_len, with_header, p } => {
+				let idxs = self.line_symbols(alphabet.len(), *min_len, *max_len, i);
 				let mut b = Vec::new();
 				if *with_header {
 					if let Some(h) = texts::header(*p) {
@@ -441,8 +599,73 @@ impl Space {
 				b.extend_from_slice(&seed[e..]);
 				b
 			},
-			Kind::Desc { max_len, .. } => vcore::enumerate::string_nth(DESC_ALPHABET, *max_len, i),
+			Kind::Chars { seed, cells, alphabet, min_len, max_len, .. } => {
+				let n = count_between(alphabet.len(), *min_len, *max_len);
+				let (s, e) = cells[(i / n) as usize];
+				let r = symbols_nth(alphabet, *min_len, *max_len, i % n);
+				let mut b = Vec::with_capacity(seed.len() + r.len());
+				b.extend_from_slice(&seed[..s]);
+				b.extend_from_slice(&r);
+				b.extend_from_slice(&seed[e..]);
+				b
+			},
+			Kind::TextEdits { seed, symbols, .. } => {
+				let (pos, op) = self.edit_of(seed.len(), symbols.len(), i);
+				let mut b = Vec::with_capacity(seed.len() + 4);
+				b.extend_from_slice(&seed[..pos]);
+				match op {
+					Edit::Delete => b.extend_from_slice(&seed[pos + 1..]),
+					Edit::Insert(k) => {
+						b.extend_from_slice(&symbols[k]);
+						b.extend_from_slice(&seed[pos..]);
+					},
+					Edit::Replace(k) => {
+						b.extend_from_slice(&symbols[k]);
+						b.extend_from_slice(&seed[pos + 1..]);
+					},
+				}
+				b
+			},
+			Kind::ClassBytes { seed, faults } => {
+				let (pos, v) = faults[i as usize];
+				let mut b = seed.clone();
+				b[pos as usize] = v;
+				b
+			},
+			Kind::Utf8 { seed, entries, repl } => {
+				let (c, r) = (i as usize / repl.len(), i as usize % repl.len());
+				let e = &seed.parsed.map[entries[c] as usize];
+				let old = read_be(&seed.bytes, e) as usize;
+				let rep = &repl[r];
+				let mut b = Vec::with_capacity(seed.bytes.len() + rep.len());
+				b.extend_from_slice(&seed.bytes[..e.offset]);
+				b.extend_from_slice(&(rep.len() as u16).to_be_bytes());
+				b.extend_from_slice(rep);
+				b.extend_from_slice(&seed.bytes[e.offset + 2 + old..]);
+				b
+			},
+			Kind::Desc { alphabet, max_len, .. } => symbols_nth(alphabet, 0, *max_len, i),
 			Kind::File { input, .. } => input.clone(),
+		}
+	}
+
+	fn line_symbols(&self, k: usize, min_len: usize, max_len: usize, i: u64) -> Vec<usize> {
+		let skip = if min_len == 0 { 0 } else { vcore::enumerate::strings_count(k, min_len - 1) };
+		vcore::enumerate::string_nth(&(0..k).collect::<Vec<_>>(), max_len, i + skip)
+	}
+
+	/// (byte position, edit) of case `i` of a text-edit space: per position [delete, insert each symbol, replace by each
+	/// symbol], then the insertions at the very end
+	fn edit_of(&self, seed_len: usize, symbols: usize, i: u64) -> (usize, Edit) {
+		let per = 1 + 2 * symbols as u64;
+		let pos = (i / per) as usize;
+		if pos >= seed_len {
+			return (seed_len, Edit::Insert((i - seed_len as u64 * per) as usize));
+		}
+		match i % per {
+			0 => (pos, Edit::Delete),
+			k if k <= symbols as u64 => (pos, Edit::Insert(k as usize - 1)),
+			k => (pos, Edit::Replace(k as usize - 1 - symbols)),
 		}
 	}
 
@@ -463,8 +686,8 @@ impl Space {
 			Kind::Adversaries(v) => format!("adversary {}", v[i as usize].name),
 			Kind::InsnCut(v) => format!("insncut {}", v[i as usize].0),
 			Kind::Seeds(v) => v[i as usize].0.clone(),
-			Kind::Lines { alphabet, max_len, with_header, .. } => {
-				let idxs: Vec<usize> = vcore::enumerate::string_nth(&(0..alphabet.len()).collect::<Vec<_>>(), *max_len, i);
+			Kind::Lines { alphabet, min_len, max_len, with_header, .. } => {
+				let idxs = self.line_symbols(alphabet.len(), *min_len, *max_len, i);
 				format!("{}: line symbols {:?}{}", self.spec, idxs, if *with_header { " after the header" } else { "" })
 			},
 			Kind::Tokens { seed, cells, repl, .. } => {
@@ -472,6 +695,31 @@ impl Space {
 				let (s, e) = cells[c];
 				let rep = &repl[r];
 				format!("{}: cell {} ({:?} at bytes {}..{}) replaced by {:?}{}", self.spec, c, String::from_utf8_lossy(&seed[s..e]), s, e, String::from_utf8_lossy(&rep[..rep.len().min(24)]), if rep.len() > 24 { format!("… ({} bytes)", rep.len()) } else { String::new() })
+			},
+			Kind::Chars { seed, cells, alphabet, min_len, max_len, .. } => {
+				let n = count_between(alphabet.len(), *min_len, *max_len);
+				let c = (i / n) as usize;
+				let (s, e) = cells[c];
+				format!("{}: cell {} ({:?} at bytes {}..{}) replaced by {:?}", self.spec, c, String::from_utf8_lossy(&seed[s..e]), s, e, String::from_utf8_lossy(&symbols_nth(alphabet, *min_len, *max_len, i % n)))
+			},
+			Kind::TextEdits { seed, symbols, .. } => {
+				let (pos, op) = self.edit_of(seed.len(), symbols.len(), i);
+				match op {
+					Edit::Delete => format!("{}: byte {} ({:#04x}) deleted", self.spec, pos, seed[pos]),
+					Edit::Insert(k) => format!("{}: bytes {:02x?} inserted at {}", self.spec, symbols[k], pos),
+					Edit::Replace(k) => format!("{}: byte {} ({:#04x}) replaced by {:02x?}", self.spec, pos, seed[pos], symbols[k]),
+				}
+			},
+			Kind::ClassBytes { seed, faults } => {
+				let (pos, v) = faults[i as usize];
+				format!("{}: byte {} {:#04x} -> {:#04x}", self.spec, pos, seed[pos as usize], v)
+			},
+			Kind::Utf8 { seed, entries, repl } => {
+				let (c, r) = (i as usize / repl.len(), i as usize % repl.len());
+				let e = &seed.parsed.map[entries[c] as usize];
+				let old = read_be(&seed.bytes, e) as usize;
+				let rep = &repl[r];
+				format!("{}: Utf8 constant at offset {} ({:?}) replaced by {:?}{}", self.spec, e.offset - 1, String::from_utf8_lossy(&seed.bytes[e.offset + 2..e.offset + 2 + old.min(40)]), String::from_utf8_lossy(&rep[..rep.len().min(40)]), if rep.len() > 40 { format!("… ({} bytes)", rep.len()) } else { String::new() })
 			},
 			Kind::Desc { .. } => format!("{}: {:?}", self.spec, String::from_utf8_lossy(&self.input(i))),
 			Kind::File { .. } => "replay".into(),
@@ -492,6 +740,10 @@ impl Space {
 			Kind::Seeds(_) => "seed".into(),
 			Kind::Lines { .. } => "line-sequence".into(),
 			Kind::Tokens { .. } => "token-replacement".into(),
+			Kind::Chars { .. } => "cell-characters".into(),
+			Kind::TextEdits { .. } => "text-edit".into(),
+			Kind::ClassBytes { .. } => "byte-edit".into(),
+			Kind::Utf8 { .. } => "utf8-replacement".into(),
 			Kind::Desc { .. } => "descriptor-string".into(),
 			Kind::File { .. } => "replay".into(),
 		}
@@ -505,8 +757,11 @@ impl Space {
 			Kind::Adversaries(_) => 4_000_000,
 			Kind::InsnCut(_) => 1_000,
 			Kind::Seeds(_) => 20_000,
-			Kind::Lines { .. } => 30_000,
+			Kind::Lines { max_len, .. } => if *max_len > 3 { 2_000 } else { 30_000 },
 			Kind::Tokens { .. } => 120_000,
+			Kind::Chars { seed, .. } | Kind::TextEdits { seed, .. } => seed.len() as u64 * 4 + 200,
+			Kind::ClassBytes { seed, .. } => seed.len() as u64 + 200,
+			Kind::Utf8 { seed, .. } => seed.bytes.len() as u64 + 3_000,
 			Kind::Desc { .. } => 60,
 			Kind::File { .. } => 1,
 		}
